@@ -171,7 +171,7 @@ pub fn c16_t_tpl_eq_by_meaning_3x3() { eq_body(2, 3, 3); }
 #[kani::unwind(13)]
 pub fn c16_q_tpl_eq_symmetric() {
     let ta = sym_tpl(2, 1);
-    let tb = sym_tpl(2, 1);
+    let tb = sym_tpl(1, 1);
     let pa = build(&ta);
     let pb = build(&tb);
     let a = Template::new_ref(&pa[..ta.n]);
@@ -357,7 +357,7 @@ pub fn c16_t_tpl_render_protocol_3parts() { render_protocol(3, false); }
 /// visitor, which CBMC does not finish; the value path of the protocol is decided by
 /// `c16_q_tpl_render_protocol_*` with a recording writer.)
 #[kani::proof]
-#[kani::unwind(10)]
+#[kani::unwind(26)]
 pub fn c16_q_tpl_render_display() {
     let s = sym_tpl(3, 1);
     let parts = build(&s);
